@@ -1,5 +1,7 @@
 #include <AIToolbox/POMDP/IO.hpp>
 
+#include <limits>
+
 #include <AIToolbox/POMDP/Utils.hpp>
 
 #include <AIToolbox/Tools/CassandraParser.hpp>
@@ -15,6 +17,9 @@ namespace AIToolbox::POMDP {
 
     std::ostream& operator<<(std::ostream &os, const Policy & p) {
         const auto & vf = p.getValueFunction();
+
+        // Values must be written with enough digits to be read back exactly.
+        const auto oldPrecision = os.precision(std::numeric_limits<double>::max_digits10);
 
         // VLists
         for ( size_t h = 1; h < vf.size(); ++h ) {
@@ -37,6 +42,7 @@ namespace AIToolbox::POMDP {
         // put on the stream, and the loader will work.
         os << "@\n";
 
+        os.precision(oldPrecision);
         return os;
     }
 
